@@ -153,8 +153,8 @@ inductive CPc | idle | sawNotStarted (q : QName) | spawned (q : QName)
 inductive Label
   | newQueue (q : QName) (hasHandler : Bool)          -- NewNamedQueue (only for an absent name)
   | startRead (c : Nat) (q : QName)                    -- Start(): `if q.started { return }`, handler check
-  | startSpawn (c : Nat)                               -- `go func() {…}()`
-  | startWrite (c : Nat)                               -- `q.started = true`
+  | startSpawn (c : Nat) (q : QName)                   -- `go func() {…}()`
+  | startWrite (c : Nat) (q : QName)                   -- `q.started = true`
   | deliver (ts : List (QName × Id))                   -- events consumer: DoWithLock{ for … AddLast }
   | cronFire (ts : List (QName × Id))                  -- a schedule tick reaches the consumer
   | kubeEvent (ts : List (QName × Id))                 -- a cluster event reaches the consumer
@@ -204,18 +204,20 @@ def step (cfg : Cfg) (s : State) : Label → Option State
       else if !qs.hasHandler then some { s with qs := upd s.qs q { qs with status := .noHandler } }
       else some { s with callers := updC s.callers c (.sawNotStarted q) }
     | _, _ => none
-  | .startSpawn c =>
+  | .startSpawn c q0 =>
     match s.callers c with
     | .sawNotStarted q =>
+      if q ≠ q0 then none else
       match s.qs q with
       | some qs => some { s with qs := upd s.qs q { qs with workers := qs.workers ++ [.loopTop 0], status := .idle },
                                  callers := updC s.callers c (.spawned q),
                                  log := .pt q .loop :: s.log }
       | none => none
     | _ => none
-  | .startWrite c =>
+  | .startWrite c q0 =>
     match s.callers c with
     | .spawned q =>
+      if q ≠ q0 then none else
       match s.qs q with
       | some qs => some { s with qs := upd s.qs q { qs with started := true },
                                  callers := updC s.callers c .idle }
